@@ -210,6 +210,13 @@ func decodeStruct(p Paragraph, into reflect.Value) error {
 		}
 
 		if value, ok := p.Values[paragraphKey]; ok {
+			if value == "" && field.Kind() == reflect.Struct {
+				/* the empty field is what the zero value of a member
+				 * of a custom type is written as (a required one, at
+				 * least): read it back as that */
+				field.Set(reflect.Zero(field.Type()))
+				continue
+			}
 			if err := decodeStructValue(field, fieldType, value); err != nil {
 				return err
 			}
